@@ -52,7 +52,7 @@ COQ_FILES = ["Base/EP.v", "Base/EPSound.v", "Model/Lane.v", "Spec/RotGates.v", "
              "Model/GateCheck.v", "Model/LaneShow.v", "Proofs/GateProofs.v", "Proofs/LaneFingerprints.v", "Base/Amp.v",
              "Proofs/CircuitProofs.v", "Proofs/CircuitTheorem.v", "Spec/Born.v", "gen/Gen_channel_tables.v", "Model/InstrCheck.v",
              "Model/KrausCheck.v", "Proofs/InstrProofs.v", "Proofs/BitIdx.v", "Proofs/DenseBridge.v", "Proofs/KrausSem.v", "Proofs/KrausLocal.v",
-             "Proofs/KrausTheorem.v", "Proofs/KrausGates.v", "Proofs/KrausFeedback.v", "Proofs/KrausNoise2.v", "Proofs/KrausRot.v", "Proofs/KrausCircuit.v", "Props/C05.v"]
+             "Proofs/KrausTheorem.v", "Proofs/KrausGates.v", "Proofs/KrausFeedback.v", "Proofs/KrausNoise2.v", "Proofs/KrausRot.v", "Proofs/KrausChain.v", "Proofs/KrausCircuit.v", "Props/C05.v"]
 IMPORTS = ("From Coq Require Import ZArith List QArith String. Import ListNotations.\n"
            "Require Import TV.Base.EP TV.Model.Lane TV.Spec.RotGates TV.gen.Gen_instructions TV.gen.Gen_stim_gates TV.Model.GateCheck TV.Model.LaneShow.\n")
 
